@@ -202,9 +202,9 @@ func sign(x int) int {
 
 func init() {
 	mc.Register(&mc.Property{
-		ID:    "C10",
-		Level: "exploration",
-		Rule: "bounded-exhaustive input enumeration: all byte strings of length 0..L over {0x25,'/','0','a',0xfe,0xff} x 9 revisions (0,1,2,0xff,0x100,2^32,2^63,2^64-2,2^64-1): round trip for every (key,revision), byte order = (key,revision) order for ALL ordered pairs, range bounds for ALL (start,end,key) triples x 3 revisions, prefix bounds for all (prefix,key) pairs, ParseRevision for lengths 0..12; a case is one evaluated (pair|triple) and all are distinct",
+		ID:     "C10",
+		Level:  "exploration",
+		Rule:   "bounded-exhaustive input enumeration: all byte strings of length 0..L over {0x25,'/','0','a',0xfe,0xff} x 9 revisions (0,1,2,0xff,0x100,2^32,2^63,2^64-2,2^64-1): round trip for every (key,revision), byte order = (key,revision) order for ALL ordered pairs, range bounds for ALL (start,end,key) triples x 3 revisions, prefix bounds for all (prefix,key) pairs, ParseRevision for lengths 0..12; a case is one evaluated (pair|triple) and all are distinct",
 		Assume: []string{"keys over bytes greater than '$' only (the documented alphabet); bytes between the sampled ones behave like their neighbours (the functions only compare and copy bytes)"},
 		Exec:   c10Exec,
 		Drive: func(c *mc.Ctx) {
